@@ -14,7 +14,8 @@ CONSTANTS
   ChangeMax = 2
   MaxI = 1000000
   IncAlgo = "coded"
+  CopyAlgo = "takeover"
   Ops = {"new", "inc", "copy"}
-INVARIANTS TypeOK Sorted CachesCoherent Inc1Agree PathIndependence TwinAgreement EvidenceProposerAgrees
+INVARIANTS TypeOK Sorted CachesCoherent Inc1Agree PathIndependence TwinAgreement EvidenceProposerAgrees ReloadTransparent
 VIEW View
 CHECK_DEADLOCK FALSE
